@@ -215,6 +215,9 @@ def run_job(job, ctx):
         compare(ctx, "x.q.w", {"q.w": s}, "E-compound-key", job, out)
         compare(ctx, "x.zzz", {"yyy": s}, "E-unrelated", job, out)
         compare(ctx, "widget.ZZZ", {"ZZZ": s}, "E-uppercase-key", job, out)        # keys are compared as written
+        # the target of one mapping is the key of another (both registered): a target names a grammar, it is not mapped again
+        compare(ctx, "x.zz1", {"zz1": s, s: other}, "E-target-is-a-key", job, out)
+        compare(ctx, "x." + s, {"zz1": s, s: other}, "E-target-is-a-key", job, out)
         compare(ctx, "widget.Zz", {"zz": s}, "E-key-case-differs", job, out)        # ... so this name maps to nothing
         # keys that are whole file names (no dot to split at): consulted by the whole-name fallback
         compare(ctx, "Dockerfile", {"Dockerfile": s}, "E-whole-name", job, out)
